@@ -5,10 +5,48 @@ from verifkit import read_lines
 REQUIRED = ["DaeVerif.C06.Props." + n for n in (
     "tls_sni_found", "tls_sni_sound", "tls_total", "tls_record_total",
     "sniff_tcp_chunk_invariant", "normalize_ordinary_name", "relay_identity", "sniff_tcp_sound",
+    "sniff_returns_by_deadline", "sniff_timed_refines",
     "http_host_found", "http_host_sound", "sniff_tcp_http_one_read",
     "quic_sni_sound", "reassembly_keeps_slices", "quic_flight_found",
     "udp_not_withheld_when_complete", "udp_flow_in_order",
 )]
+
+
+def poison_pool_overlay(ctx):
+    """Build the harnesses against a copy of the outbound module whose buffer pools overwrite every
+    buffer that is handed back (pool.Put / pool.PutBuffer), so that a use of released memory
+    (use-after-release) changes the bytes the harness compares.  The copy is made from the module the
+    repo resolves to, one statement is inserted into each of the two functions, and /repo/go.mod is
+    overlaid (not edited) with a directory `replace`."""
+    import shutil
+    from verifkit import sh, go_env, REPO
+    try:
+        rc, out, _ = sh(["go", "list", "-m", "-f", "{{.Dir}}", "github.com/daeuniverse/outbound"], cwd=REPO, env=go_env(), timeout=120)
+        mod = out.strip().split("\n")[-1]
+        dst = os.path.join(ctx.out, "outbound-poison")
+        shutil.copytree(mod, dst)
+        for root, dirs, files in os.walk(dst):
+            for n in dirs + files:
+                os.chmod(os.path.join(root, n), 0o755 if n in dirs else 0o644)
+        f = os.path.join(dst, "pool", "bytes_buffer.go")
+        src = open(f).read()
+        hook = "func PutBuffer(buf *bytes.Buffer) {\n"
+        assert hook in src
+        open(f, "w").write(src.replace(hook, hook + "\tif b := buf.Bytes(); true {\n\t\tb = b[:cap(b)]\n\t\tfor i := range b {\n\t\t\tb[i] = 0xdd\n\t\t}\n\t}\n", 1))
+        f = os.path.join(dst, "pool", "pool.go")
+        src = open(f).read()
+        hook = "func Put(buf []byte) {\n"
+        assert hook in src
+        open(f, "w").write(src.replace(hook, hook + "\tfor i := range buf[:cap(buf)] {\n\t\tbuf[:cap(buf)][i] = 0xdd\n\t}\n", 1))
+        gomod = open(os.path.join(REPO, "go.mod")).read()
+        lines = [l for l in gomod.split("\n") if not l.startswith("replace github.com/daeuniverse/outbound ")]
+        lines.append("replace github.com/daeuniverse/outbound => " + dst)
+        alt = os.path.join(ctx.out, "go.mod.poison")
+        open(alt, "w").write("\n".join(lines) + "\n")
+        return {os.path.join(REPO, "go.mod"): alt}
+    except Exception as e:  # module layout changed: run without poisoning, say so
+        ctx.say("NOTE pool poisoning not applied:", repr(e))
+        return {}
 
 
 def run(ctx):
@@ -23,9 +61,12 @@ def run(ctx):
     ctx.prove(["DaeVerif.C06.Props"], ["DaeVerif.C06.Props"], ["DaeVerif/C06/*.lean"], extra_targets=["c06drv"])
     ctx.required_theorems(REQUIRED)
 
+    poison = poison_pool_overlay(ctx)
+    ctx.cov["pool_poisoning"] = bool(poison)
     binp = ctx.go_test_build("component/sniffing",
-                             ["component/sniffing/c06_test.go", "component/sniffing/c06_gen_test.go"], "c06",
-                             tags="", pkgname="sniffing")
+                             ["component/sniffing/c06_test.go", "component/sniffing/c06_gen_test.go",
+                              "component/sniffing/c06_time_test.go"], "c06",
+                             tags="", pkgname="sniffing", extra_overlay=poison)
     if not binp:
         return 2
     rc, out = ctx.run_harness(binp, "TestVerifC06")
@@ -49,11 +90,31 @@ def run(ctx):
         for l in read_lines(viol)[:10]:
             ctx.report("property violated by the implementation: " + l[:600], {"finding": l,
                        "replay": "VERIF_SEED=%d ./check C06 %s" % (ctx.seed, ctx.tier)})
+    # ---- the stream sniffer under virtual time (testing/synctest)
+    rc, out = ctx.run_harness(binp, "TestVerifC06Timed")
+    tops, timpl, tmodel = (os.path.join(ctx.out, "c06time." + e) for e in ("ops", "impl", "model"))
+    if rc != 0 or not os.path.exists(tops):
+        ctx.say("HARNESS-FAILED", out[-3000:])
+        return 2
+    if not ctx.driver("c06drv", tops, tmodel):
+        ctx.proof_failures.append("model driver c06drv failed to run on c06time")
+    for ln, op, im, mo in ctx.diff_streams(tops, timpl, tmodel, "c06time")[:10]:
+        ctx.report(f"timed stream sniffer differs from proved model at line {ln}: impl `{im[:300]}` model `{mo[:300]}`",
+                   {"stream": "c06time", "line": ln, "op": op, "impl": im, "model": mo,
+                    "replay": "VERIF_SEED=%d ./check C06 %s" % (ctx.seed, ctx.tier)})
+    tviol = os.path.join(ctx.out, "c06time.viol")
+    if os.path.exists(tviol):
+        for l in read_lines(tviol)[:10]:
+            ctx.report("property violated by the implementation (timed): " + l[:600], {"finding": l,
+                       "replay": "VERIF_SEED=%d ./check C06 %s" % (ctx.seed, ctx.tier)})
+    tstats = json.load(open(os.path.join(ctx.out, "c06time.stats.json")))
+    timed_ops = read_lines(tops)
+
     # ---- control side: the real handlePkt on one UDP flow
     gen_src = open(os.path.join(os.path.dirname(os.path.dirname(os.path.abspath(__file__))), "harness", "overlay", "component", "sniffing", "c06_gen_test.go")).read()
     gen_ctl = os.path.join(ctx.out, "c06_gen_control_test.go")
     open(gen_ctl, "w").write(gen_src.replace("package sniffing", "package control", 1))
-    binc = ctx.go_test_build("control", ["control/c06_test.go", gen_ctl], "c06flow")
+    binc = ctx.go_test_build("control", ["control/c06_test.go", gen_ctl], "c06flow", extra_overlay=poison)
     if not binc:
         return 2
     rc, out = ctx.run_harness(binc, "TestVerifC06Flow")
@@ -104,6 +165,9 @@ def run(ctx):
     ctx.cov["flow_distribution"] = fstats["counters"]
     kinds["pkt"] = len(flow_ops)
     distinct |= set(flow_ops)
+    kinds["ttcp"] = len(timed_ops)
+    distinct |= set(timed_ops)
+    ctx.cov["timed_distribution"] = {k: v for k, v in tstats["counters"].items() if k.startswith("timed.")}
     ctx.cov["op_kinds"] = kinds
     ctx.assumptions = [
         "one ClientHello per TLS record (hellos fragmented over several records are out of the sniffer's scope)",
@@ -114,4 +178,4 @@ def run(ctx):
                            "frames/qext/fenc (CRYPTO reassembly, locator, frame encoders), udp (datagram sequence -> per-datagram answer + kept datagrams), "
                            "pkt (datagram sequence through the real handlePkt -> what reaches the outbound after each, what is held, sniffed domain); "
                            "distinct_nontrivial counts distinct tls/rec/tcp/udp/http/frames/qext op lines",
-                      evaluations=len(opl) + len(flow_ops), distinct=len(distinct))
+                      evaluations=len(opl) + len(flow_ops) + len(timed_ops), distinct=len(distinct))
